@@ -9,6 +9,7 @@
 
    The declarative side is written out here, independently of the model's functions. *)
 From Mage Require Import Base.Strs Model.Flags Proof.Flags_facts.
+From Mage Require Model.Constraints Proof.Flags_build.   (* C10's model of file selection and Compile; names qualified *)
 
 (* ---- the property sentence, said directly ------------------------------------------------- *)
 (* "the variable is set to a true value" *)
@@ -153,6 +154,29 @@ Theorem C11_same_effect_explicit_off_refuted :
   (exists f e, f_t f = Some (-5000000000)%Z /\ e_timeout (eff_mage f e) = 0%Z /\ e_timeout (eff_bin f e) = (-5000000000)%Z).
 Proof. exact explicit_off_refuted. Qed.
 
+(* "GOOS and GOARCH ... never influence how the magefile itself is built."  Stated over C10's model
+   (Model/Constraints.v: defaultContext read from the start-up environment, EnvWithGOOS, listGoFiles,
+   Compile's environment); Model/Flags.v has no build component.  When mage runs targets -goos/-goarch
+   are empty, and then for EVERY start-up environment [su_environ su] (any GOOS / GOARCH in it):
+   the `go build` child and the file selection both see GOOS/GOARCH = the host's, and the magefiles are
+   selected with a context whose platform fields are the host's.  (What else of the start-up
+   environment reaches the selection - cgo, tool tags - is C10_env_irrelevant_partial.) *)
+Theorem C11_build_isolated : forall su env,
+  Constraints.envWithGOOS su "" "" = Some env ->
+  Constraints.compile_env su "" "" = Some env /\
+  (exists m, Constraints.splitEnv env = Some m /\
+             Constraints.mget "GOOS" m = Some (Constraints.su_hostos su) /\
+             Constraints.mget "GOARCH" m = Some (Constraints.su_hostarch su)) /\
+  forall tag files,
+    Constraints.listGoFiles su tag env files =
+    Constraints.import_gofiles (Constraints.ctx_for su (Constraints.su_hostos su) (Constraints.su_hostarch su) tag) files.
+Proof. exact Flags_build.build_isolated. Qed.
+
+Theorem C11_build_context_platform : forall su tag,
+  Constraints.b_goos (Constraints.ctx_for su (Constraints.su_hostos su) (Constraints.su_hostarch su) tag) = Constraints.su_hostos su /\
+  Constraints.b_goarch (Constraints.ctx_for su (Constraints.su_hostos su) (Constraints.su_hostarch su) tag) = Constraints.su_hostarch su.
+Proof. exact Flags_build.build_ctx_platform. Qed.
+
 Print Assumptions C11_same_effect.
 Print Assumptions C11_same_effect_variables.
 Print Assumptions C11_accessors.
@@ -164,6 +188,8 @@ Print Assumptions C11_cwd_magefiles_directory.
 Print Assumptions C11_streams_wiring_partial.
 Print Assumptions C11_before_repair_refuted.
 Print Assumptions C11_same_effect_explicit_off_refuted.
+Print Assumptions C11_build_isolated.
+Print Assumptions C11_build_context_platform.
 
 (* non-vacuity: -v -debug=false -t 90s -gocmd /x/gowrap -d proj with a magefiles directory, in an
    environment with GOOS=plan9, EQ=a=b=c, EMPTY=, a duplicate FOO, MAGEFILE_VERBOSE=garbage,
